@@ -1,3 +1,5 @@
+pub mod actor;
+pub mod crash;
 pub mod docs;
 pub mod forge;
 pub mod offer;
